@@ -37,6 +37,10 @@ func (f *Fragment) String() string {
 
 // Validate a type.
 func (f *Fragment) Validate(root *Root) (errs []error) {
+	if _, ok := f.Condition.(*Ref); ok {
+		// Same as for an inline fragment, the condition type must be defined.
+		errs = append(errs, valError(f.line, f.col, "type %s not defined for fragment %s", f.Condition.Name(), f.Name))
+	}
 	errs = append(errs, f.SelBase.Validate(root)...)
 	for _, du := range f.Directives() {
 		errs = append(errs, root.validateDirUse(f.Name, Locate(f), du)...)
